@@ -209,6 +209,16 @@ func IsKnown(v *Violation) bool {
 	return false
 }
 
+// KnownHit counts a hit of a listed known finding without abandoning the case.
+func (s *Stats) KnownHit(v *Violation) {
+	if want := os.Getenv("VERIF_PROPERTY"); want != "" && v.Property != want {
+		return
+	}
+	s.mu.Lock()
+	s.KnownHits[v.Signature]++
+	s.mu.Unlock()
+}
+
 // KnownListed tells whether a signature is listed for a property (used by
 // generators that steer away from a known trigger).
 func KnownListed(property, signature string) bool {
